@@ -316,15 +316,32 @@ func verifRelease(a action) {
 }
 
 // verifDecBegin/verifDecEnd bracket the atomic decrement of a trigger's pending counter.
-func verifDecBegin(a action) {
+//
+// When tracing, the decrement and its log entry are one critical section (so the traced runs cannot exhibit
+// an interleaving INSIDE DecrementPending). Without tracing nothing is locked; with VERIF_YIELD the last two
+// decrements of a counter are instead lined up: the handler that finds the counter at 2 waits (bounded) at a
+// gate for the other one, so that both enter DecrementPending at the same moment.
+func verifDecBegin(a, t action) {
 	verifYield(7, a)
 	if verifTraceOn {
 		verifT.mu.Lock()
 		if n, ok := verifT.nodes[a]; ok && n.lvl == -1 {
 			verifT.waitReceived(verifSender{-1, n.id})
 		}
+		return
+	}
+	if verifYieldOn && verifPending(t) == 2 {
+		g, _ := verifGates.LoadOrStore(t, new(int32))
+		c := g.(*int32)
+		if atomic.AddInt32(c, 1) == 1 {
+			deadline := time.Now().Add(300 * time.Microsecond)
+			for atomic.LoadInt32(c) < 2 && time.Now().Before(deadline) {
+			}
+		}
 	}
 }
+
+var verifGates sync.Map
 
 func verifDecEnd(a, t action, last bool) {
 	if verifTraceOn {
